@@ -199,6 +199,8 @@ def cfg_tags(cfg):
         # a later solve of a history on one object; which exact-solver options EARLIER solves of the history used matters
         h = cfg["_hist"]
         t.append("hist%s" % ("".join("-after-" + a for a in h["before"]) if h["step"] > 0 else "-first"))
+        if h.get("tag"):
+            t.append(h["tag"])
     return "+".join(t) or "default"
 
 
@@ -780,6 +782,44 @@ def gen_history(r, p):
     return {"sync": r.choice(["auto", "auto", "auto", "manual"]), "steps": steps}
 
 
+def gen_tiny_cost_history(r):
+    """two columns that are duplicates of each other up to a cost difference of 2^-k (far below double precision) in a covering row,
+    solved exactly; then the bound at which the dearer column sits non-basic is REMOVED (the column becomes free, non-basic at
+    zero) and the LP is solved again from the stored basis: the floating-point solver sees a zero reduced cost, only the exact
+    optimality test of the rational factorization can tell that the basis is no longer optimal.  Mirrored over min / max, which
+    bound is removed, the sign of the row, k, a common scale factor; sometimes with extra columns."""
+    k = r.choice([60, 100, 160, 220, 400])
+    eps = Fraction(1, 2 ** k)
+    sc = Fraction(r.choice([1, 1, 2, 3]), r.choice([1, 1, 3, 7]))
+    mirror = r.random() < 0.5            # x1 in (-inf, 0] with the upper bound removed instead of [0, inf) with the lower
+    maxi = r.random() < 0.4
+    U = Fraction(r.randint(4, 12))
+    b = Fraction(r.randint(1, 3))
+    sg = -1 if maxi else 1               # costs in the sense of the objective
+    if not mirror:
+        cols = [(sg * sc, Fraction(0), U), (sg * sc * (1 + eps), Fraction(0), None)]
+        rows = [(b, {0: Fraction(1), 1: Fraction(1)}, None)]
+        edit = ("lo", 1, "-inf")
+    else:
+        cols = [(-sg * sc, -U, Fraction(0)), (-sg * sc * (1 + eps), None, Fraction(0))]
+        rows = [(None, {0: Fraction(1), 1: Fraction(1)}, -b)]
+        edit = ("up", 1, "inf")
+    if r.random() < 0.5:
+        cols.append((sg * Fraction(r.randint(2, 5)), Fraction(0), Fraction(r.randint(1, 4))))
+        rows[0][1][2] = Fraction(r.choice([1, 2]))
+    if r.random() < 0.3:
+        cols.append((Fraction(0), Fraction(0), None))
+        rows.append((None, {0: Fraction(1), len(cols) - 1: Fraction(1)}, U + 3) if not mirror else (-U - 3, {0: Fraction(1), len(cols) - 1: Fraction(-1)}, None))
+    p = lpgen.LP(maxi, Fraction(0), cols, rows, "hist-tiny-cost")
+    opts = dict(H_DEFAULT, eqtrans=0)
+    if r.random() < 0.3:
+        opts["simplifier"] = 0
+    steps = [{"set": dict(opts), "edits": [], "real": False}, {"set": dict(opts), "edits": [edit], "real": False}]
+    if r.random() < 0.4:
+        steps.append({"set": dict(opts, eqtrans=r.randrange(2)), "edits": [("obj", 0, cols[0][0] * (1 + 3 * eps))], "real": False})
+    return p, {"sync": "auto", "steps": steps, "tag": "tinycost2^-%d" % k}
+
+
 def apply_edits(q, edits):
     for (kind, idx, v) in edits:
         if kind == "obj":
@@ -787,10 +827,10 @@ def apply_edits(q, edits):
             q.cols[idx] = (Fraction(v), lo, up)
         elif kind == "lo":
             o, lo, up = q.cols[idx]
-            q.cols[idx] = (o, Fraction(v), up)
+            q.cols[idx] = (o, None if v in ("-inf", None) else Fraction(v), up)
         elif kind == "up":
             o, lo, up = q.cols[idx]
-            q.cols[idx] = (o, lo, Fraction(v))
+            q.cols[idx] = (o, lo, None if v in ("inf", None) else Fraction(v))
         elif kind == "lhs":
             lhs, co, rhs = q.rows[idx]
             q.rows[idx] = (Fraction(v), co, rhs)
@@ -807,7 +847,7 @@ def hist_line(tag, spec):
         out.append("|")
         out += ["%s=%s" % (a, b) for a, b in sorted(st["set"].items())]
         for (kind, idx, v) in st["edits"]:
-            out.append("sense:%s" % v if kind == "sense" else "%s:%d:%s" % (kind, idx, qs(v)))
+            out.append("sense:%s" % v if kind == "sense" else "%s:%d:%s" % (kind, idx, v if v in ("inf", "-inf") else qs(v)))
         if st["real"]:
             out.append("mode:real")
     return " ".join(out)
@@ -829,7 +869,7 @@ def run_histories(ck, exe, cert, model, items):
                     eds.append(("sense", None, "min" if q.maxi else "max"))
                     q.maxi = not q.maxi
                 else:
-                    eds.append((kind, idx, Fraction(v)))
+                    eds.append((kind, idx, v if v in ("inf", "-inf") else Fraction(v)))
                     apply_edits(q, [(kind, idx, v)])
             steps.append({"set": st["set"], "edits": eds, "real": st["real"],
                           "lp": lpgen.LP(q.maxi, q.offset, list(q.cols), [(l, dict(c), hh) for (l, c, hh) in q.rows], q.family)})
@@ -849,8 +889,8 @@ def run_histories(ck, exe, cert, model, items):
         for k, st in enumerate(steps):
             cfg = {a: b for a, b in st["set"].items() if DEFAULTS.get(a, H_DEFAULT.get(a)) != b}
             cfg["sync"] = spec["sync"]
-            cfg["_hist"] = {"step": k, "before": sorted(before) or ["plain"], "line": line, "lp0": p0.text("replay"),
-                            "spec": {"sync": spec["sync"], "steps": [{"set": s2["set"], "edits": [(a, b, None if c is None else str(c)) for (a, b, c) in s2["edits"]], "real": s2["real"]} for s2 in spec["steps"]]}}
+            cfg["_hist"] = {"step": k, "before": sorted(before) or ["plain"], "line": line, "lp0": p0.text("replay"), "tag": spec.get("tag"),
+                            "spec": {"sync": spec["sync"], "tag": spec.get("tag"), "steps": [{"set": s2["set"], "edits": [(a, b, None if c is None else str(c)) for (a, b, c) in s2["edits"]], "real": s2["real"]} for s2 in spec["steps"]]}}
             rec = dict(recs.get("h%d.%d" % (h, k), {}))
             J = len(jobs)
             ck.count("history-steps:%s" % ("real" if st["real"] else "exact"))
@@ -941,8 +981,8 @@ def main():
             p = lpgen.LP(head[2] == "max", Fraction(head[3]), cols, rows, "replay")
             if "hist_spec" in rp:
                 spec = {"sync": rp["hist_spec"]["sync"],
-                        "steps": [{"set": st["set"], "real": st["real"], "edits": [(a, b, None if a == "sense" else Fraction(c)) for (a, b, c) in st["edits"]]}
-                                  for st in rp["hist_spec"]["steps"]]}
+                        "steps": [{"set": st["set"], "real": st["real"], "edits": [(a, b, None if a == "sense" else (c if c in ("inf", "-inf") else Fraction(c))) for (a, b, c) in st["edits"]]}
+                                  for st in rp["hist_spec"]["steps"]], "tag": rp["hist_spec"].get("tag")}
                 run_histories(ck, exe, cert, model, [(p, spec)])
             else:
                 e2e(ck, exe, cert, model, [(p, [rp["config"]])])
@@ -1034,6 +1074,8 @@ def main():
     items.insert(0, (lpgen.LP(False, Fraction(0), [(Fraction(1), Fraction(0), None)], [(Fraction(1, 7), {0: Fraction(1, 3)}, None)], "hist"),
                      {"sync": "auto", "steps": [{"set": dict(H_DEFAULT, eqtrans=1), "edits": [], "real": False}, {"set": dict(H_DEFAULT, eqtrans=0), "edits": [], "real": False},
                                                 {"set": dict(H_DEFAULT, eqtrans=1), "edits": [("obj", 0, Fraction(2, 7))], "real": False}]}))
+    for _ in range(14 if quick else 200):
+        items.append(gen_tiny_cost_history(r))
     run_histories(ck, exe, cert, model, items)
     kernel_from_answers(ck, exe, model, ck.opt_answers, 60 if quick else 600)
     ck.cov["rule"] = ("(i) kernel cases: an LP with rational data (fractions 1/3, 1/10, ..., zero bounds, all range types) + rational vectors x, s, y, d (on/off bounds, "
